@@ -4,8 +4,9 @@
 EXTENDS Stream, Json, IOUtils
 TraceLog == ndJsonDeserialize(IOEnv.TRACE)
 OutFile  == IOEnv.OUT
-VARIABLES l, rej, cur, w, max, seen, nexec, nund, ws, http, srv, hostile
-vars == <<l, rej, cur, w, max, seen, nexec, nund, ws, http, srv, hostile>>
+VARIABLES l, rej, cur, w, max, seen, nexec, nund, ws, http, srv, hostile,
+          wr      \* what the library wrote to the stream after its handshake response (drivers started with wr=1; << >> otherwise)
+vars == <<l, rej, cur, w, max, seen, nexec, nund, ws, http, srv, hostile, wr>>
 
 ObsOf(e) == CASE e.e = "Req" -> <<"req", e.code, e.tok, e.pl>> [] e.e = "Pong" -> <<"pong", e.tok>> [] e.e = "Closed" -> <<"closed">>
 
@@ -18,23 +19,28 @@ Judge ==
      ELSE IF Len(seen) > Len(x) /\ x = SubSeq(seen, 1, Len(x)) THEN "C05:messages-delivered-that-are-not-in-the-stream"
      ELSE "C05:delivered-messages-differ-from-the-stream"
 
-Init == l = 1 /\ rej = << >> /\ cur = -1 /\ w = << >> /\ max = 0 /\ seen = << >> /\ nexec = 0 /\ nund = 0 /\ ws = FALSE /\ http = 0 /\ srv = TRUE /\ hostile = FALSE
+Init == l = 1 /\ rej = << >> /\ cur = -1 /\ w = << >> /\ max = 0 /\ seen = << >> /\ nexec = 0 /\ nund = 0 /\ ws = FALSE /\ http = 0 /\ srv = TRUE /\ hostile = FALSE /\ wr = << >>
 Consume ==
   /\ l <= Len(TraceLog)
   /\ LET e == TraceLog[l] IN
-     CASE e.e = "Reset" -> cur' = e.id /\ max' = e.max /\ w' = << >> /\ seen' = << >> /\ ws' = (e.proto = "ws") /\ http' = e.http /\ srv' = (e.role = "s") /\ hostile' = (e.hostile = 1) /\ UNCHANGED <<rej, nexec, nund>>
-       [] e.e = "Stream" -> w' = e.w /\ UNCHANGED <<rej, cur, max, seen, nexec, nund, ws, http, srv, hostile>>
-       [] e.e \in {"Req", "Pong", "Closed"} -> seen' = Append(seen, ObsOf(e)) /\ UNCHANGED <<rej, cur, w, max, nexec, nund, ws, http, srv, hostile>>
-       [] e.e = "End" -> LET v == Judge IN
+     CASE e.e = "Reset" -> cur' = e.id /\ max' = e.max /\ w' = << >> /\ seen' = << >> /\ ws' = (e.proto = "ws") /\ http' = e.http /\ srv' = (e.role = "s") /\ hostile' = (e.hostile = 1) /\ wr' = << >> /\ UNCHANGED <<rej, nexec, nund>>
+       [] e.e = "Stream" -> w' = e.w /\ UNCHANGED <<rej, cur, max, seen, nexec, nund, ws, http, srv, hostile, wr>>
+       [] e.e \in {"Req", "Pong", "Closed"} -> seen' = Append(seen, ObsOf(e)) /\ UNCHANGED <<rej, cur, w, max, nexec, nund, ws, http, srv, hostile, wr>>
+       [] e.e = "Wr" -> wr' = wr \o e.b /\ UNCHANGED <<rej, cur, w, max, seen, nexec, nund, ws, http, srv, hostile>>
+       [] e.e = "End" -> LET v0 == Judge
+                             \* the write side (C01): every response the server wrote is one well-formed frame around one well-formed message, as many as it answered
+                             nans == Cardinality({i \in 1..Len(seen) : seen[i][1] \in {"req", "pong"}})
+                             v == IF v0 \in {"", "-"} /\ ws /\ srv /\ ~hostile /\ wr # << >> /\ WsWritten(wr, 1, 0) < nans + 1
+                                  THEN "C01:websocket-frames-written-by-the-server-are-not-well-formed-or-incomplete" ELSE v0 IN
                          /\ rej' = IF v \in {"", "-"} THEN rej ELSE Append(rej, [id |-> cur, line |-> l, why |-> v])
                          /\ nexec' = nexec + 1 /\ nund' = IF v = "-" THEN nund + 1 ELSE nund
-                         /\ UNCHANGED <<cur, w, max, seen, ws, http, srv, hostile>>
-       [] e.e = "Crash" -> rej' = Append(rej, [id |-> cur, line |-> l, why |-> "C05:driver-crashed"]) /\ UNCHANGED <<cur, w, max, seen, nexec, nund, ws, http, srv, hostile>>
-       [] OTHER -> UNCHANGED <<rej, cur, w, max, seen, nexec, nund, ws, http, srv, hostile>>
+                         /\ UNCHANGED <<cur, w, max, seen, ws, http, srv, hostile, wr>>
+       [] e.e = "Crash" -> rej' = Append(rej, [id |-> cur, line |-> l, why |-> "C05:driver-crashed"]) /\ UNCHANGED <<cur, w, max, seen, nexec, nund, ws, http, srv, hostile, wr>>
+       [] OTHER -> UNCHANGED <<rej, cur, w, max, seen, nexec, nund, ws, http, srv, hostile, wr>>
   /\ l' = l + 1
 Finish == /\ l = Len(TraceLog) + 1
           /\ JsonSerialize(OutFile, [rejected |-> rej, executions |-> nexec, discarded |-> nund, known |-> {}, lines |-> Len(TraceLog)])
-          /\ l' = l + 1 /\ UNCHANGED <<rej, cur, w, max, seen, nexec, nund, ws, http, srv, hostile>>
+          /\ l' = l + 1 /\ UNCHANGED <<rej, cur, w, max, seen, nexec, nund, ws, http, srv, hostile, wr>>
 Next == Consume \/ Finish
 Spec == Init /\ [][Next]_vars
 =============================================================================
